@@ -85,8 +85,9 @@ Theorem forward_row_local :
 Proof. exact call_row_local. Qed.
 Print Assumptions forward_row_local.
 
-(* 4. Output column names <-> transformed statistics: the same list, without duplicates, whenever the column names
-      are distinct (generated names never collide among themselves: gen_name is injective). *)
+(* 4. Output column names <-> transformed statistics: for EVERY successful fit the two are the same list and that
+      list has no duplicates -- no distinctness hypothesis: _fit rejects a clash (next theorem), and generated names
+      never collide among themselves when the categorical names are distinct (gen_name is injective). *)
 Theorem output_names_are_transformed_stats_keys :
   forall train cs t tf cbt y k prior cb counts,
     fit fresh train cs = Some t -> tf_cat train = Some cbt -> tf_y train = Some y ->
@@ -94,12 +95,32 @@ Theorem output_names_are_transformed_stats_keys :
     validate tf = Some tf -> tf_cat tf = Some cb -> b_names cb = b_names cbt -> num_names tf = num_names train ->
     Forall2 (fun name count => assoc name cs = Some count) (b_names cb) counts ->
     Forall has_nonmissing (b_cols cb) -> Forall2 all_seen counts (b_cols cb) ->
-    NoDup (num_names train ++ gen_names (b_names cbt) (k - 1)) ->
     exists out nb, call t tf = Some out /\ tf_num out = Some nb /\
                    transformed_stats_keys t = Some (b_names nb) /\ NoDup (b_names nb).
 Proof. exact names_are_keys. Qed.
 Print Assumptions output_names_are_transformed_stats_keys.
 
+(* already at fit time: the keys of the transformed statistics are the future output names, duplicate-free *)
+Theorem fitted_stats_keys_are_distinct_output_names :
+  forall train cs t cbt y k prior,
+    fit fresh train cs = Some t -> tf_cat train = Some cbt -> tf_y train = Some y ->
+    target_prior y = Some (k, prior) ->
+    transformed_stats_keys t = Some (num_names train ++ gen_names (b_names cbt) (k - 1)) /\
+    NoDup (num_names train ++ gen_names (b_names cbt) (k - 1)).
+Proof. exact keys_spec. Qed.
+Print Assumptions fitted_stats_keys_are_distinct_output_names.
+
+(* a clash (a numerical column named like a generated one, e.g. "a_0" next to categorical "a", or two generated
+   names that coincide) makes fit raise instead of silently producing duplicate names / overwritten statistics *)
+Theorem name_clash_rejected :
+  forall t train cs cb y k prior,
+    tf_cat train = Some cb -> tf_y train = Some y -> target_prior y = Some (k, prior) ->
+    ~ NoDup (num_names train ++ gen_names (b_names cb) (k - 1)) ->
+    fit t train cs = None.
+Proof. exact fit_name_clash. Qed.
+Print Assumptions name_clash_rejected.
+
+(* when there is no clash: distinct numerical names, distinct categorical names, no numerical name of generated form *)
 Theorem generated_names_are_distinct :
   forall num cats w,
     NoDup num -> NoDup cats -> (forall n, In n num -> ~ In n (gen_names cats w)) ->
@@ -180,4 +201,11 @@ Example unfitted_and_unseen_raise :
     [SCall ex_tf; SFit ex_train ex_stats;
      SCall (mkframe None (Some (mkblock ["c0"%string; "a"%string] [[2]; [0]]%Z)) None)]
     [OErr; ODone; OErr] = true.
+Proof. vm_compute. reflexivity. Qed.
+
+(* a numerical column "a_0" next to the categorical column "a": fit raises *)
+Example name_clash_example :
+  fit fresh (mkframe (Some (mkblock ["a_0"%string] [[Some 1; Some 2]]))
+                     (Some (mkblock ["a"%string] [[0; 1]%Z])) (Some (YInt [0; 1]%Z)))
+            [("a_0"%string, []); ("a"%string, [1; 1]%Z)] = None.
 Proof. vm_compute. reflexivity. Qed.
